@@ -92,8 +92,8 @@ def multi(kind, items, txn=False, faults=None):
                       "faults": [dict(s=f[0], k=f[1], op=(f[2] if len(f) > 2 else "")) for f in (faults or [])]}}
 
 
-def hist(hid, steps, on_classic=False, enum=False, enum_ops=None, chain=False):
-    return {"id": hid, "onClassic": on_classic, "enum": enum, "chain": bool(enum and chain),
+def hist(hid, steps, on_classic=False, enum=False, enum_ops=None, chain=False, every=1):
+    return {"id": hid, "onClassic": on_classic, "enum": enum, "chain": bool(enum and chain), "enumEvery": every,
             "enumOps": (enum_ops or []) if enum else [], "steps": steps}
 
 
@@ -130,7 +130,7 @@ def directed(ctx):
             hs.append(hist("d-rm-k%d" % k, ctx_1_12(plain=True) + [multi("remove-many", [(S1, 0), (S2, 0)], faults=[(2 - k % 2, k)])]))
     else:
         hs.append(hist("d-upd-tx-fresh", ctx_1_12(True, plain=True) + [multi("update-many", [(S1, 2), (S2, 3)], txn=True)], enum=True,
-                       enum_ops=ENUM_OPS))
+                       enum_ops=ENUM_OPS, every=3))
         hs.append(hist("d-inst-ps", [multi("install-many", [(S1, 1), (S2, 2)])], enum=True, enum_ops=ENUM_OPS))
         hs.append(hist("d-rm", ctx_1_12(plain=True) + [multi("remove-many", [(S1, 0), (S2, 0)])], on_classic=True, enum=True,
                        enum_ops=["unlink-snap", "remove-snap-data"]))
@@ -160,11 +160,11 @@ def directed(ctx):
         for k in (8, 12, 20):
             hs.append(hist("d-revctx-k%d" % k, rv + [multi("update-many", [(S1, 3), (S2, 1)], txn=(k != 12), faults=[(1 + k % 2, k)])]))
     else:
-        hs.append(hist("d-revctx-ps", rv + [multi("update-many", [(S1, 3), (S2, 1)])], enum=True, enum_ops=["link-snap"]))
+        hs.append(hist("d-revctx-ps", rv + [multi("update-many", [(S1, 3), (S2, 1)])], enum=True, enum_ops=["link-snap"], every=2))
         hs.append(hist("d-revctx-tx", rv + [multi("update-many", [(S1, 3), (S2, 1)], txn=True)], enum=True, enum_ops=["link-snap"],
                        chain=True))
         hs.append(hist("d-3upd-tx-enum", three + [multi("update-many", [(S1, 2), (S2, 3), (S3, 2)], txn=True)], enum=True, chain=True))
-        hs.append(hist("d-3upd-ps-enum", three + [multi("update-many", [(S1, 2), (S2, 3), (S3, 2)])], on_classic=True, enum=True))
+        hs.append(hist("d-3upd-ps-enum", three + [multi("update-many", [(S1, 2), (S2, 3), (S3, 2)])], on_classic=True, enum=True, every=2))
     return hs
 
 
@@ -603,7 +603,7 @@ def run(ctx):
         if not histories:
             raise InfraError("replay file has no histories")
     else:
-        histories = directed(ctx) + random_histories(ctx, ctx.pick(8, 60))
+        histories = directed(ctx) + random_histories(ctx, ctx.pick(8, 40))
     log, stats = run_harness(ctx, tb, histories, "all")
     ctx.log("driver: %d histories, %d events, %d multi-snap changes, %d with faults in %.0fs" % (
         stats["histories"], stats["events"], stats["changes"], stats["faults"], stats["wall"]))
